@@ -298,26 +298,60 @@ def run(seed, tier, replay=None):
                 rep.count("sample_container:" + ("ascending" if all(x <= y for x, y in zip(ys, ys[1:])) else "unsorted"))
                 cases.append((ys, ws, a, b))
 
+    # Axis "the caller's arrays" (own generator).  (i) About half of the float-list cases are built from float64 ndarrays that the CALLER
+    # keeps and modifies in place afterwards (`gen_emp.caller_mutation`: sort / reverse / negate / refill with the next sample / permute or
+    # zero weights ...): once straight after construction, before the first call of any method, and again before every later evaluation.
+    # The model works on the lists: every method must describe the sample given at construction.  (ii) Query arrays are objects the caller
+    # keeps too: ONE point array goes into cdf and pmf (and, as views of it, into the 2-D calls), one level array into ppf
+    # (`gen_emp.SharedArg`); each must be bit-identical after every call.  (iii) Writing into an array a method returned does not change
+    # what the next call returns.
+    rng_m = C.rng_for("C03/caller-arrays", seed)
+    rv = ((replay.get("violation") or {}).get("input") or replay) if replay is not None else {}
+    owner = {}      # case index -> dict(ys=ndarray, ws=ndarray|None, done=[statements], todo=[statements of a replay])
+    shared_pts = {}
+
+    def caller_touches(ci):
+        o = owner.get(ci)
+        if o is None:
+            return
+        if o["todo"]:
+            o["done"].append(G.apply_statement(o["todo"].pop(0), o["ys"], o["ws"]))
+        elif replay is None:
+            o["done"].append(G.caller_mutation(rng_m, o["ys"], o["ws"]))
+
     def inp_of(ci):
         ys, ws, a, b = cases[ci]
         inp = dict(ys=[C.fhex(v) for v in ys], ws=None if ws is None else [C.fhex(v) for v in ws], a=C.fhex(a), b=C.fhex(b))
         if ci in container:
             inp.update(ys_container=container[ci], ys_values=[int(v) if container[ci] != "float32" else v for v in ys])
         inp.update(extra.get(ci, {}))
+        if ci in owner:
+            inp.update(caller_modified_its_arrays_in_place=list(owner[ci]["done"]),
+                       sequence="ys = np.array(ys); ws = None if ws is None else np.array(ws); d = EmpiricalDistribution(ys, ws=ws, a=a, b=b); "
+                                "<the statements above, other calls in between>; then the call judged")
         return inp
 
     reqs, meta = [], []
     for ci, (ys, ws, a, b) in enumerate(cases):
+        from_arrays = container.get(ci) is None and ((rng_m.random() < 0.5) if replay is None else bool(rv.get("caller_modified_its_arrays_in_place")))
         with warnings.catch_warnings():
             warnings.simplefilter("ignore")
             try:
-                d = ED(as_container(ys, container.get(ci)), ws=ws, a=a, b=b)
+                if from_arrays:
+                    owner[ci] = dict(ys=np.array(ys, dtype=float), ws=None if ws is None else np.array(ws, dtype=float), done=[],
+                                     todo=list(rv.get("caller_modified_its_arrays_in_place") or []))
+                    d = ED(owner[ci]["ys"], ws=owner[ci]["ws"], a=a, b=b)
+                    caller_touches(ci)        # before the first call of any method
+                    rep.count("caller_arrays:built_from_ndarrays_then_modified_in_place")
+                else:
+                    d = ED(as_container(ys, container.get(ci)), ws=ws, a=a, b=b)
             except Exception as e:  # valid by construction: an exception is a defect
                 rep.violate(what="constructor raised on a valid input", error=repr(e), input=inp_of(ci),
                             call="EmpiricalDistribution(ys, ws=ws, a=a, b=b)")
                 continue
         dl = dist_line(ys, ws, a, b)
         qs_y = G.gen_queries(rng, ys, a, b)
+        shared_pts[ci] = G.SharedArg(qs_y, "float64")
         reqs.append(("emp.levels", dl)); meta.append((ci, "levels", d, None))
         reqs.append(("emp.cdf", f"{dl} {C.flist(qs_y)}")); meta.append((ci, "cdf", d, qs_y))
         reqs.append(("emp.pmf", f"{dl} {C.flist(qs_y)}")); meta.append((ci, "pmf", d, qs_y))
@@ -338,7 +372,10 @@ def run(seed, tier, replay=None):
     reqs2, meta2 = [], []
     for (ci, kind, d, qs), r in zip(meta, replies):
         ys, ws, a, b = cases[ci]
+        if kind != "levels":
+            caller_touches(ci)        # the caller goes on using its arrays between any two evaluations
         inp = inp_of(ci)
+        aliased = " (the caller modified the arrays it had passed to the constructor in place afterwards)" if ci in owner else ""
         if r is None:
             rep.disagree(case=ci, op=kind, note="model rejected a valid input", input=inp)
             continue
@@ -357,7 +394,12 @@ def run(seed, tier, replay=None):
             reqs2.append(("emp.ppf", f"{dist_line(ys, ws, a, b)} {C.flist(qs_q)}"))
             meta2.append((ci, d, qs_q, inp))
         elif kind in ("cdf", "pmf"):
-            impl = getattr(d, kind)(np.array(qs))
+            S = shared_pts[ci]            # one float64 object per case for cdf and pmf
+            impl = getattr(d, kind)(S.obj)
+            dmg = S.changed_by(f"{kind}(points)")
+            if dmg:
+                rep.violate(what=f"{kind} modified the caller's array of points in place", input=dict(inp, points=[C.fhex(q) for q in qs]), observed=dmg,
+                            call=f"EmpiricalDistribution.{kind}")
             if np.shape(impl) != (len(qs),):
                 rep.violate(what=f"{kind} output shape differs from query shape", input=inp, shape=list(np.shape(impl)))
                 continue
@@ -367,7 +409,7 @@ def run(seed, tier, replay=None):
                          sample=dict(op=kind, ys=ys, ws=ws, a=a, b=b, y=y, model=str(mv), impl=float(iv)))
                 if not close(iv, mv):
                     # the exact model *is* the specification (theorems C03.cdf_eq_weight_le / pmf_eq_weight_eq)
-                    rep.violate(what=f"{kind}(y) differs from the exact weighted step value by more than 1e-12",
+                    rep.violate(what=f"{kind}(y) differs from the exact weighted step value by more than 1e-12" + aliased,
                                 input=dict(inp, y=C.fhex(y)), expected=str(mv), observed=float(iv), call=f"EmpiricalDistribution.{kind}")
             # scalar and 2-D shapes, empty
             s = getattr(d, kind)(qs[0])
@@ -377,12 +419,31 @@ def run(seed, tier, replay=None):
                 m2 = getattr(d, kind)(np.array(qs[:4]).reshape(2, 2))
                 if np.shape(m2) != (2, 2) or not np.array_equal(np.ravel(m2), impl[:4], equal_nan=True):
                     rep.violate(what=f"{kind} on a 2-D query is not the elementwise result", input=inp)
+                m2 = getattr(d, kind)(S.obj[:4].reshape(2, 2))       # a 2-D view of the caller's array
+                if np.shape(m2) != (2, 2) or not np.array_equal(np.ravel(m2), impl[:4], equal_nan=True):
+                    rep.violate(what=f"{kind} on a 2-D view of the caller's array is not the elementwise result", input=inp)
+                dmg = S.changed_by(f"{kind}(points[:4].reshape(2, 2))")
+                if dmg:
+                    rep.violate(what=f"{kind} modified the caller's array of points in place", input=dict(inp, points=[C.fhex(q) for q in qs]), observed=dmg,
+                                call=f"EmpiricalDistribution.{kind}")
             e = getattr(d, kind)(np.array([]))
             if np.shape(e) != (0,):
                 rep.violate(what=f"{kind} on an empty query does not return an empty array", input=inp)
             for sh, msg in C.shape_probe(getattr(d, kind), qs)[:1]:
                 rep.violate(what=f"{kind}: {msg} (every output has the shape of the query)", input=dict(inp, qs=[C.fhex(q) for q in qs[:6]]),
                             shape=list(sh), call=f"EmpiricalDistribution.{kind}")
+            # the reverse direction: the caller writes into the array it got back; the next call must return the (already judged) values again
+            if isinstance(impl, np.ndarray) and impl.flags.writeable and len(qs):
+                keep = impl.copy()
+                impl[...] = -7.0
+                again = np.asarray(getattr(d, kind)(S.obj), dtype=float)
+                rep.case((kind + "-after-write", inp["ys"], inp["ws"], inp["a"], inp["b"]))
+                if again.shape != keep.shape or not np.array_equal(again, keep, equal_nan=True):
+                    k = 0 if again.shape != keep.shape else int(np.flatnonzero(~((again == keep) | ((again != again) & (keep != keep))))[0])
+                    if again.shape != keep.shape or not close(again[k], C.parse_ext(r[k])):
+                        rep.violate(what=f"{kind}(y) differs from the exact weighted step value by more than 1e-12 after the caller wrote into the array "
+                                         f"returned by the previous {kind} call", input=dict(inp, y=C.fhex(qs[k])), expected=str(C.parse_ext(r[k])),
+                                    observed=float(again[k]) if again.shape == keep.shape else list(again.shape), call=f"EmpiricalDistribution.{kind}")
         elif kind == "moments":
             mean_m, var_m = C.parse_ext(r[0]), C.parse_ext(r[1])
             scale = max(1.0, max(abs(v) for v in ys))
@@ -398,7 +459,7 @@ def run(seed, tier, replay=None):
                     rel = Fr(len(ys) + 4, 2 ** 23)
                     rep.count("float32_moment_limited_by_float32_resolution")
                 if not (float(iv) == float(iv)) or abs(Fr(float(iv)) - mv) > Fr(sc) * rel:
-                    rep.violate(what=f"{name} attribute differs from the weighted moment", input=inp,
+                    rep.violate(what=f"{name} attribute differs from the weighted moment" + aliased, input=inp,
                                 expected=str(mv), observed=float(iv), call=f"EmpiricalDistribution.{name}")
     replies2 = drv.run(reqs2)
     for (ci, d, qs, inp), r in zip(meta2, replies2):
@@ -406,7 +467,16 @@ def run(seed, tier, replay=None):
         if r is None:
             rep.disagree(case=ci, op="ppf", note="model rejected a valid input", input=inp)
             continue
-        impl = d.ppf(np.array(qs))
+        caller_touches(ci)
+        if ci in owner:
+            inp = inp_of(ci)
+        aliased = " (the caller modified the arrays it had passed to the constructor in place afterwards)" if ci in owner else ""
+        S = G.SharedArg(qs, "float64")        # one level array for the calls below
+        impl = d.ppf(S.obj)
+        dmg = S.changed_by("ppf(qs)")
+        if dmg:
+            rep.violate(what="ppf modified the caller's array of levels in place", input=dict(inp, qs=[C.fhex(q) for q in qs]), observed=dmg,
+                        call="EmpiricalDistribution.ppf")
         if np.shape(impl) != (len(qs),):
             rep.violate(what="ppf output shape differs from query shape", input=inp)
             continue
@@ -424,7 +494,7 @@ def run(seed, tier, replay=None):
             rep.case(("ppf", inp.get("ys_container"), inp["ys"], inp["ws"], inp["a"], inp["b"], q),
                      sample=dict(op="ppf", ys=ys, ws=ws, a=a, b=b, q=q, model=str(mv), impl=float(impl[i])))
             if not same_value(impl[i], mv):
-                rep.violate(what="ppf(q) is not inf{y in [a,b]: q <= cdf(y)}", input=dict(inp, q=C.fhex(q)),
+                rep.violate(what="ppf(q) is not inf{y in [a,b]: q <= cdf(y)}" + aliased, input=dict(inp, q=C.fhex(q)),
                             expected=str(mv), observed=float(impl[i]), margin=str(margin), call="EmpiricalDistribution.ppf")
         s = d.ppf(qs[0])
         if np.shape(s) != ():
@@ -433,6 +503,26 @@ def run(seed, tier, replay=None):
             m2 = d.ppf(np.array(qs[:4]).reshape(2, 2))
             if np.shape(m2) != (2, 2) or not np.array_equal(np.ravel(m2), impl[:4], equal_nan=True):
                 rep.violate(what="ppf on a 2-D query is not the elementwise result", input=inp)
+            m2 = d.ppf(S.obj[:4].reshape(2, 2))                      # a 2-D view of the caller's array
+            if np.shape(m2) != (2, 2) or not np.array_equal(np.ravel(m2), impl[:4], equal_nan=True):
+                rep.violate(what="ppf on a 2-D view of the caller's array is not the elementwise result", input=inp)
+        keep = np.array(impl, dtype=float)
+        if isinstance(impl, np.ndarray) and impl.flags.writeable:
+            impl[...] = -7.0                                         # the caller writes into what it got back
+        again = np.asarray(d.ppf(S.obj), dtype=float)
+        dmg = S.changed_by("ppf(qs[:4].reshape(2, 2)); ppf(qs)")
+        if dmg:
+            rep.violate(what="ppf modified the caller's array of levels in place", input=dict(inp, qs=[C.fhex(q) for q in qs]), observed=dmg,
+                        call="EmpiricalDistribution.ppf")
+        rep.case(("ppf-after-write", inp["ys"], inp["ws"], inp["a"], inp["b"]))
+        if again.shape != keep.shape or not np.array_equal(again, keep, equal_nan=True):
+            # `keep` was judged against the exact model above, entry by entry (outside the property's tie zone)
+            k = 0 if again.shape != keep.shape else int(np.flatnonzero(~((again == keep) | ((again != again) & (keep != keep))))[0])
+            mv_k, margin_k = C.parse_ext(r[2 * k]), C.parse_ext(r[2 * k + 1])
+            if again.shape != keep.shape or (margin_k > TOL and not same_value(again[k], mv_k)):
+                rep.violate(what="ppf(q) is not inf{y in [a,b]: q <= cdf(y)} when asked again with the same array of levels, after the caller wrote into the "
+                                 "array returned by the first call", input=dict(inp, q=C.fhex(qs[k])), expected=str(mv_k),
+                            observed=float(again[k]) if again.shape == keep.shape else list(again.shape), call="EmpiricalDistribution.ppf")
         for sh, msg in C.shape_probe(d.ppf, qs)[:1]:
             rep.violate(what=f"ppf: {msg} (every output has the shape of the query)", input=dict(inp, qs=[C.fhex(q) for q in qs[:6]]),
                         shape=list(sh), call="EmpiricalDistribution.ppf")
@@ -447,7 +537,12 @@ def run(seed, tier, replay=None):
              "unsorted samples handed over as Python ints / every integer dtype that holds them / float32 (same exact model; float32-out "
              "moments judged at float32 resolution); large workloads (20-3000 points x 300-100000 queries, 1-D to 3-D, lower bound "
              "stratified): ppf(0)=a, ppf(1)=least full point, range [a,b] for every entry, ~50 entries per query and their scalar "
-             "re-evaluation against the exact step distribution (exact rationals; cross-checked with the Lean model for samples <= 200).",
+             "re-evaluation against the exact step distribution (exact rationals; cross-checked with the Lean model for samples <= 200). "
+             "The caller's arrays (own generator): about half of the float-list cases are built from float64 ndarrays that the caller modifies in "
+             "place (sort/reverse/negate/rescale/refill/one entry; permute/zero/renormalise weights) after construction and before every "
+             "evaluation -- judged by the exact model of the sample given at construction; one point array per case goes into cdf and pmf (and "
+             "2-D views of it), one level array into the ppf calls, bit-identical afterwards; writing into a returned array does not change the "
+             "next call's values.",
         extra=dict(driver_lines=drv.lines))
 
 
